@@ -134,6 +134,17 @@ func genC10(tier string, rng *Rng) {
 		add("junk-payload", t+600, false, cs)
 	}
 
+	// ---- an empty payload, then an idle period longer than the in-frame timeout, then frames:
+	// the connection must still be up and in step
+	{
+		e := Item{Kind: "f", Data: Lit(nil)}
+		cs := ConnScript{Items: []Item{ackItem(), good(1), e, good(2), e, e, good(3)}, End: "none"}
+		cs.Segs = []SegCut{{0, 6}, {100, gl + 4}, {2700, gl + 4}, {2750, 2}, {2800, 2}, {5400, gl}}
+		add("empty-then-idle", 5900, false, cs)
+		cs2 := ConnScript{Items: []Item{ackItem(), e, good(4)}, End: "none", Segs: []SegCut{{0, 6}, {100, 4}, {2600, gl}}}
+		add("empty-then-idle", 3100, false, cs2)
+	}
+
 	// ---- combinations across reconnects: limit, then payload stall, then header stall, then service
 	{
 		c1 := ConnScript{Items: []Item{ackItem(), good(1), {Kind: "raw", Data: Lit(hdr(1 << 31))}, good(70)}, Segs: []SegCut{{0, 6}, {50, gl}, {200, 4 + gl}}, End: "none"}
